@@ -602,13 +602,17 @@ Section TileObject.
 
   Lemma step_keeps_address : forall s t a c, tile_at t a -> tile_at (snd (fst (step s t c))) a.
   Proof.
-    intros s t a c H. pose proof H as [Hc Hl]. destruct c as [d|d|d b|d]; cbn [tcall_step].
+    intros s t a c H. pose proof H as [Hc Hl]. destruct c as [d|d|d b|d|d b]; cbn [tcall_step].
     - destruct (t_src t); [exact H|]. rewrite (location_kept t a d H).
       destruct (fs_read s (loc a)); cbn [fst snd]; [split; assumption | exact H].
     - destruct (t_src t); [exact H|]. rewrite (location_kept t a d H). exact H.
     - cbn [t_stored]. destruct (t_stored t); cbn [fst snd]; [split; assumption|].
       rewrite (location_kept _ a d); [cbn [fst snd]; split; assumption | split; assumption].
     - rewrite (location_kept t a d H). exact H.
+    - cbn [t_stored]. destruct (t_stored t); cbn [fst snd]; [split; assumption|].
+      rewrite (location_kept _ a d) by (split; assumption).
+      destruct link; [|destruct (mono b); [destruct (fs_exists s _)|] | destruct (mono b); [destruct (fs_exists s _)|]];
+        cbn [fst snd]; split; assumption.
   Qed.
 
   (* a store / remove / load through the object acts on the address of the object, whatever dimensions are passed *)
@@ -629,6 +633,26 @@ Section TileObject.
   Proof.
     intros s t a d H Hs. cbn [tcall_step]. rewrite Hs, (location_kept t a d H). unfold fload.
     destruct (fs_read s (loc a)); cbn [fst snd t_src is_some]; split; try reflexivity. exact Hs.
+  Qed.
+
+  (* a store that failed leaves the object unstored: the retry through the same object writes *)
+  Lemma failed_store_step : forall s t a d b, tile_at t a -> t_stored t = false -> link = LNone ->
+    step s t (TStoreFail d b) =
+    ((if fs_islink s (loc a) then fs_del s (loc a) else s), mkTile (t_coord t) (t_loc t) (Some b) false, Some false).
+  Proof.
+    intros s t a d b H Hs Hl. cbn [tcall_step t_stored]. rewrite Hs.
+    rewrite (location_kept _ a d) by (destruct H; split; assumption). rewrite Hl, <- Hs. reflexivity.
+  Qed.
+
+  Theorem failed_store_then_retry_writes : forall s t a d b d' b', tile_at t a -> t_stored t = false ->
+    link = LNone ->
+    let '(s1, t1, r1) := step s t (TStoreFail d b) in
+    r1 = Some false /\ t_stored t1 = false /\
+    fst (fst (step s1 t1 (TStore d' b'))) = fstore layout ext link s1 a b'.
+  Proof.
+    intros s t a d b d' b' H Hs Hl. rewrite (failed_store_step s t a d b H Hs Hl).
+    split; [reflexivity|]. split; [reflexivity|].
+    apply object_store_address; [destruct H; split; assumption | reflexivity].
   Qed.
 
   (* the flow of the tile manager for a single tile: the tile object was looked up with the dimensions of the
